@@ -27,7 +27,7 @@ Proof.
   all: intros -> Hgap Hno.
   all: unfold model, known_gap in *; cbn [i_endpoint i_cfg i_reg i_pres i_grant i_router i_pl i_prev] in *.
   all: destruct r, g; try discriminate Hgap.
-  all: destruct p as [| |[] ?| |[]|[]|[]| | | |[] []|?|?|?|?|?|[] []]; try discriminate Hno; clear Hno.
+  all: destruct p as [| |[] ?| |[]|[]|[]| | | |[] []|?|?|?|?|?|[] []|?]; try discriminate Hno; clear Hno.
   all: destruct meth; cbn; split_goal; split; reflexivity.
 Qed.
 
@@ -37,7 +37,7 @@ Lemma introspect_success_justified : forall i,
 Proof.
   intro i; open_input i; cbn [i_endpoint i_cfg i_reg i_pres i_grant i_router i_pl i_prev].
   all: intros -> Hno; unfold model; cbn [i_endpoint i_cfg i_reg i_pres i_grant i_router i_pl i_prev] in *.
-  all: destruct p as [| |[] ?| |[]|[]|[]| | | |[] []|?|?|?|?|?|[] []]; try discriminate Hno; clear Hno.
+  all: destruct p as [| |[] ?| |[]|[]|[]| | | |[] []|?|?|?|?|?|[] []|?]; try discriminate Hno; clear Hno.
   all: destruct r, meth; cbn; split_goal.
 Qed.
 
@@ -47,7 +47,7 @@ Lemma revoke_success_justified : forall i,
 Proof.
   intro i; open_input i; cbn [i_endpoint i_cfg i_reg i_pres i_grant i_router i_pl i_prev].
   all: intros -> Hno; unfold model; cbn [i_endpoint i_cfg i_reg i_pres i_grant i_router i_pl i_prev] in *.
-  all: destruct p as [| |[] ?| |[]|[]|[]| | | |[] []|?|?|?|?|?|[] []]; try discriminate Hno; clear Hno.
+  all: destruct p as [| |[] ?| |[]|[]|[]| | | |[] []|?|?|?|?|?|[] []|?]; try discriminate Hno; clear Hno.
   all: destruct r, meth; cbn; split_goal.
 Qed.
 
@@ -57,7 +57,7 @@ Lemma device_authz_success_justified : forall i,
 Proof.
   intro i; open_input i; cbn [i_endpoint i_cfg i_reg i_pres i_grant i_router i_pl i_prev].
   all: intros -> Hno; unfold model; cbn [i_endpoint i_cfg i_reg i_pres i_grant i_router i_pl i_prev] in *.
-  all: destruct p as [| |[] ?| |[]|[]|[]| | | |[] []|?|?|?|?|?|[] []]; try discriminate Hno; clear Hno.
+  all: destruct p as [| |[] ?| |[]|[]|[]| | | |[] []|?|?|?|?|?|[] []|?]; try discriminate Hno; clear Hno.
   all: destruct r, meth; cbn; split_goal.
 Qed.
 
@@ -96,7 +96,7 @@ Proof.
   2:{ intros _. pose proof (self_never_other i En) as H.
       destruct (model i) as [s e tok act w| |]; try exact I. destruct s, w; try exact I; contradiction. }
   revert En; open_input i; cbn [i_pres]; intro En.
-  all: destruct p as [| |[] ?| |[]|[]|[]| | | |[] []|?|?|[[] ?]|[[] ?]|[[] ?]|[] []]; try discriminate En; clear En.
+  all: destruct p as [| |[] ?| |[]|[]|[]| | | |[] []|?|?|[[] ?]|[[] ?]|[[] ?]|[] []|?]; try discriminate En; clear En.
   all: unfold model, other_gap; cbn [i_endpoint i_cfg i_reg i_pres i_grant i_router i_pl i_prev].
   all: destruct e; [destruct g| | |]; destruct r; cbn; intro Hgap; split_goal; try exact I.
 Qed.
@@ -125,7 +125,7 @@ Lemma names_other_model : forall i,
   end.
 Proof.
   intro i; open_input i; cbn [i_pres]; intro Hno.
-  all: destruct p as [| |[] ?| |[]|[]|[]| | | |[] []|?|?|[[] ?]|[[] ?]|[[] ?]|[] []]; try discriminate Hno; clear Hno.
+  all: destruct p as [| |[] ?| |[]|[]|[]| | | |[] []|?|?|[[] ?]|[[] ?]|[[] ?]|[] []|?]; try discriminate Hno; clear Hno.
   all: unfold model; cbn [i_endpoint i_cfg i_reg i_pres i_grant i_router i_pl i_prev].
   all: destruct e; [destruct g| | |]; destruct r; cbn; split_goal; exact I.
 Qed.
@@ -145,7 +145,7 @@ Proof.
 Qed.
 
 Definition gap_witness : input :=
-  mkInput RProvider EToken (mkCfg true true true true true true true)
+  mkInput RProvider EToken (mkCfg true true true true true true true false)
           (mkReg true MNone ANative [GCode; GRefresh] false) PIdOnly GDevice (mkPl GPBody InBody InBody) NoPrev.
 
 Lemma spec_model_refuted : exists i, spec i (model i) = false.
@@ -177,7 +177,7 @@ Qed.
 Lemma token_refuted : ~ token_statement.
 Proof.
   intro H.
-  specialize (H RProvider (mkCfg true true true true true true true)
+  specialize (H RProvider (mkCfg true true true true true true true false)
                 (mkReg true MNone ANative [GCode; GRefresh] false) PIdOnly GDevice (mkPl GPBody InBody InBody) NoPrev).
   vm_compute in H. specialize (H eq_refl eq_refl). discriminate H.
 Qed.
@@ -413,7 +413,7 @@ Proof.
   destruct (success (model (mkInput r e c rg p g pl pv))) eqn:Hs; [|reflexivity].
   assert (Hno : names_other p = false) by (destruct p; try discriminate Hh; reflexivity).
   assert (Hp : presents_right_secret p = false)
-    by (destruct p as [| |[] ?| |[]|[]|[]| | | |[] []|?|?|?|?|?|[] []]; try discriminate Hh; reflexivity).
+    by (destruct p as [| |[] ?| |[]|[]|[]| | | |[] []|?|?|?|?|?|[] []|?]; try discriminate Hh; reflexivity).
   assert (Ha : presents_ok_assertion p = false) by (destruct p; try discriminate Hh; reflexivity).
   destruct He as [->|[-> Hg]].
   - pose proof (introspect_statement r c rg p g pl pv Hno Hs) as H.
@@ -428,7 +428,7 @@ Qed.
 (* ---------------- non-vacuity: success is reachable on every endpoint and router *)
 
 Definition std_pl := mkPl GPBody InBody InBody.
-Definition all_on := mkCfg true true true true true true true.
+Definition all_on := mkCfg true true true true true true true false.
 
 Example token_nonvacuous :
   forallb (fun r => forallb (fun g =>
